@@ -625,6 +625,14 @@ func (m *SparseInt32Matrix) Import(filename string) error {
       values = append(values, int32(v))
     }
   }
+  if rows < 0 || cols < 0 {
+    return fmt.Errorf("invalid sparse matrix format: negative dimension")
+  }
+  for i := 0; i < len(rowIndices); i++ {
+    if rowIndices[i] < 0 || rowIndices[i] >= rows || colIndices[i] < 0 || colIndices[i] >= cols {
+      return fmt.Errorf("invalid sparse matrix format: index (%d,%d) out of range for dimension %dx%d", rowIndices[i], colIndices[i], rows, cols)
+    }
+  }
   *m = *NewSparseInt32Matrix(rowIndices, colIndices, values, rows, cols)
   return nil
 }
@@ -657,6 +665,12 @@ func (obj *SparseInt32Matrix) UnmarshalJSON(data []byte) error {
   }
   if len(r.Index) != len(r.Value) {
     return fmt.Errorf("invalid sparse vector")
+  }
+  if r.Rows < 0 || r.Cols < 0 {
+    return fmt.Errorf("invalid sparse matrix: negative dimension")
+  }
+  if err := checkSparseIndices(r.Index, r.Rows*r.Cols); err != nil {
+    return err
   }
   obj.values = NewSparseInt32Vector(r.Index, r.Value, r.Rows*r.Cols)
   obj.rows = r.Rows
